@@ -60,6 +60,10 @@ func runCase(c *core.Ctx, i int) {
 		loopbackCase(c, rng)
 		return
 	}
+	if i%41 == 11 {
+		concurrentCase(c, rng)
+		return
+	}
 	switch x := rng.Intn(100); {
 	case x < 58:
 		layoutCase(c, rng, false)
